@@ -5,6 +5,7 @@ import (
 	"fmt"
 	"os"
 	"path/filepath"
+	"sort"
 	"strings"
 	"sync"
 	"time"
@@ -20,11 +21,31 @@ import (
 // stdout / -o file / exit status equal those of the same invocation with --no-cache.
 
 type c14Inv struct {
-	Args  []string `json:"args"`
-	Stdin string   `json:"stdin"`
+	Args  []string          `json:"args"`
+	Stdin string            `json:"stdin"`
+	Files map[string]string `json:"files,omitempty"` // relative file name in the working directory -> name of its content
 }
 
-func (i c14Inv) String() string { return "gts " + strings.Join(i.Args, " ") + " < " + i.Stdin }
+func (i c14Inv) String() string {
+	s := "gts " + strings.Join(i.Args, " ") + " < " + i.Stdin
+	if len(i.Files) > 0 {
+		var fs []string
+		for n, c := range i.Files {
+			fs = append(fs, n+"="+c)
+		}
+		sort.Strings(fs)
+		s += " [" + strings.Join(fs, ",") + "]"
+	}
+	return s
+}
+
+func (i c14Inv) files() map[string][]byte {
+	out := map[string][]byte{}
+	for n, c := range i.Files {
+		out[n] = c14Inputs["file:"+c]
+	}
+	return out
+}
 
 type c14Case struct {
 	History []c14Inv `json:"history"` // invocations sharing one cache directory; the last one is judged (all are, during search)
@@ -67,6 +88,13 @@ func c14Setup() {
 			"BAD": []byte("this is not a sequence file\nat all\n"),
 			"AFA": []byte(">RECA.1 RECA record\nacgtacggtacctagcatgcaagt\n"),
 			"TRUNC": []byte(a.String()[:len(a.String())-40]),
+			// a long record followed by a short one: a locator valid for the first makes the command fail on the second, after partial output
+			"LS": []byte(c14Record("LONG", "acgtacggtacctagcatgcaagtacgtacggtacctagca", false, 3).String() + a.String()),
+			"file:g1": []byte(">g1\nttt\n"), "file:g2": []byte(">g2\nccc\n"),
+			"file:h1": []byte(b.String()), "file:h2": []byte(c14Record("HOST2", "ggggccccaaaatttt", false, 0).String()),
+			"file:q1": []byte(">q\nacg\n"), "file:q2": []byte(">q\ncat\n"),
+			"file:t1": []byte("     gene            5..9\n                     /gene=\"added1\"\n"),
+			"file:t2": []byte("     CDS             6..12\n                     /product=\"added2\"\n"),
 		}
 		dir, err := os.MkdirTemp("", "verif-c14-inputs-")
 		if err != nil {
@@ -210,6 +238,19 @@ func c14Alphabet(thorough bool) []c14Inv {
 	add([]string{"BAD"}, "extract", "2..5")
 	add([]string{"BAD"}, "summary")
 	add([]string{"BAD"}, "query")
+	// the same relative path with different contents (secondary inputs must be keyed by content)
+	for _, v := range []string{"1", "2"} {
+		out = append(out,
+			c14Inv{Args: []string{"insert", "3", "guest.fa"}, Stdin: "A", Files: map[string]string{"guest.fa": "g" + v}},
+			c14Inv{Args: []string{"infix", "3", "host.gb"}, Stdin: "A", Files: map[string]string{"host.gb": "h" + v}},
+			c14Inv{Args: []string{"search", "query.fa"}, Stdin: "A", Files: map[string]string{"query.fa": "q" + v}},
+			c14Inv{Args: []string{"annotate", "table.txt"}, Stdin: "A", Files: map[string]string{"table.txt": "t" + v}})
+	}
+	// locators that are valid for the first record of the stream and out of range for the second:
+	// the command fails (or panics) after partial output; the repeated run must fail the same way
+	for _, c := range [][]string{{"delete", "30..35"}, {"delete", "-e", "30..35"}, {"extract", "30..35"}, {"insert", "30", "@ttt"}, {"split", "30"}, {"rotate", "30"}, {"define", "gene", "30..35"}} {
+		add([]string{"LS"}, c...)
+	}
 	add([]string{"AFA"}, "reverse")
 	add([]string{"AFA"}, "extract", "2..5")
 	_ = thorough
@@ -229,7 +270,7 @@ func c14Ref(inv c14Inv) clidrv.Result {
 		return r
 	}
 	c14RefMu.Unlock()
-	r, _ := clidrv.Run(c14NoCache(c14Args(inv.Args)), c14Inputs[inv.Stdin], clidrv.State{})
+	r, _ := clidrv.RunWithFiles(c14NoCache(c14Args(inv.Args)), c14Inputs[inv.Stdin], clidrv.State{}, inv.files())
 	c14RefMu.Lock()
 	c14Refs[key] = r
 	c14RefMu.Unlock()
@@ -253,7 +294,7 @@ func c14Step(inv c14Inv, st clidrv.State, hist []c14Inv) (clidrv.State, bool, st
 	if ref.Exit == -1 {
 		return st, false, "harness", "cannot run the gts binary: " + ref.Stderr
 	}
-	res, ns := clidrv.Run(c14Args(inv.Args), c14Inputs[inv.Stdin], st)
+	res, ns := clidrv.RunWithFiles(c14Args(inv.Args), c14Inputs[inv.Stdin], st, inv.files())
 	engine.Outcome(fmt.Sprintf("%d|%x", res.Exit, engine.Hash(string(res.Stdout)+string(res.OutFile))))
 	if !res.Same(ref) {
 		sig := "cached-output-differs"
